@@ -44,11 +44,14 @@ pub struct Cfg {
     /// explicit axis lengths (None = default index axis)
     pub xlen: Option<usize>,
     pub ylen: Option<usize>,
+    /// long axes: only the elements [pos, pos + 3) of the x (false) / y (true) axis are unconstrained IEEE values, the
+    /// others form a concrete strictly increasing background
+    pub window: Option<(bool, usize)>,
     pub timeout_ms: u64,
 }
 impl Cfg {
     pub fn name(&self) -> String {
-        format!("{:?} data{:?}{} x={:?}{}", self.strat, self.shape, if self.dynamic { "(IxDyn)" } else { "" }, self.xlen, if self.strat == Strat::Bilinear { format!(" y={:?}", self.ylen) } else { String::new() })
+        format!("{:?} data{:?}{} x={:?}{}{}", self.strat, self.shape, if self.dynamic { "(IxDyn)" } else { "" }, self.xlen, if self.strat == Strat::Bilinear { format!(" y={:?}", self.ylen) } else { String::new() }, self.window.map(|(y, p)| format!(" symbolic window {}[{p}..{}] in a concrete increasing axis", if y { "y" } else { "x" }, p + 3)).unwrap_or_default())
     }
     fn two_d(&self) -> bool {
         self.strat == Strat::Bilinear
@@ -213,8 +216,27 @@ fn check_config(cfg: &Cfg) -> Report {
     let mut chk = Chk::new(Mode::O, cfg.timeout_ms);
     chk.begin_config(&cfg.name());
     let total: usize = cfg.shape.iter().product();
-    let x: Vec<Sym> = (0..cfg.xlen.unwrap_or(0)).map(|i| Sym::var(&format!("x{i}"))).collect();
-    let y: Vec<Sym> = (0..cfg.ylen.unwrap_or(0)).map(|i| Sym::var(&format!("y{i}"))).collect();
+    let ax = |p: &str, n: usize, is_y: bool| -> Vec<Sym> {
+        (0..n)
+            .map(|i| match cfg.window {
+                Some((wy, pos)) if wy != is_y || i < pos || i >= pos + 3 => Sym::int(3 * i as i128 - 7),
+                _ => Sym::var(&format!("{p}{i}")),
+            })
+            .collect()
+    };
+    let x: Vec<Sym> = ax("x", cfg.xlen.unwrap_or(0), false);
+    let y: Vec<Sym> = ax("y", cfg.ylen.unwrap_or(0), true);
+    // native replays read the axis from the model: the concrete background goes in as well
+    let with_background = |mut m: BTreeMap<String, f64>| -> BTreeMap<String, f64> {
+        for (p, a) in [("x", &x), ("y", &y)] {
+            for (i, t) in a.iter().enumerate() {
+                if let Some(r) = t.konst() {
+                    m.insert(format!("{p}{i}"), r.to_f64());
+                }
+            }
+        }
+        m
+    };
     let data: Vec<Sym> = (0..total).map(|i| Sym::var(&format!("d{i}"))).collect();
     let mut ecfg = ExploreCfg::new(Mode::O, 8);
     ecfg.timeout_ms = cfg.timeout_ms;
@@ -250,7 +272,7 @@ fn check_config(cfg: &Cfg) -> Report {
                 // constructing and building never panics: the path is feasible (explored with pruning)
                 let (ans, vals) = chk.model(&pcs, &all_vars);
                 if matches!(ans, Answer::Sat) || all_vars.is_empty() {
-                    let m = crate::c05::model_f64(&vals);
+                    let m = with_background(crate::c05::model_f64(&vals));
                     let nk = native_kind(cfg, &m);
                     let why = if !o.rank_ok { "rank-too-small" } else { "other" };
                     chk.finding(&format!("C10:panic:{}:{why}", if cfg.two_d() { "Interp2DBuilder" } else { "Interp1DBuilder" }), &format!("{}: constructing / building panics: {msg}", cfg.name()), Json::obj().with("config", cfg.name()).with("model", crate::c05::model_json(&m)).with("native_outcome", nk.as_str()).with("symbolic_panic", msg.as_str()), Some(nk == "panic"));
@@ -261,7 +283,7 @@ fn check_config(cfg: &Cfg) -> Report {
         let mut q = pcs.clone();
         q.push(format!("(not {violated})"));
         if let Verdict::Cex(vals) = chk.must_unsat(if name.starts_with("Ok") { "accepted=>valid" } else { "error-kind=>requirement-violated" }, &format!("path {pi}: {name}"), &q, &all_vars) {
-            let m = crate::c05::model_f64(&vals);
+            let m = with_background(crate::c05::model_f64(&vals));
             let nk = native_kind(cfg, &m);
             let (nvalid, _, _) = native_valid(cfg, &o, &m);
             let outcome = match &p.result {
@@ -330,14 +352,14 @@ pub fn configs(args: &Args) -> Vec<Cfg> {
                         xl.push(Some(len - 1));
                     }
                     for xlen in xl {
-                        v.push(Cfg { strat: strat.clone(), shape: shape.clone(), dynamic, xlen, ylen: None, timeout_ms });
+                        v.push(Cfg { strat: strat.clone(), shape: shape.clone(), dynamic, xlen, ylen: None, window: None, timeout_ms });
                     }
                 }
             }
         }
         // data of dynamic rank 0
-        v.push(Cfg { strat: strat.clone(), shape: vec![], dynamic: true, xlen: None, ylen: None, timeout_ms });
-        v.push(Cfg { strat: strat.clone(), shape: vec![], dynamic: true, xlen: Some(2), ylen: None, timeout_ms });
+        v.push(Cfg { strat: strat.clone(), shape: vec![], dynamic: true, xlen: None, ylen: None, window: None, timeout_ms });
+        v.push(Cfg { strat: strat.clone(), shape: vec![], dynamic: true, xlen: Some(2), ylen: None, window: None, timeout_ms });
     }
     // per-lane boundary arrays: ok, wrong leading, wrong trailing, wrong rank (dynamic only), combined with other violations
     for (shape, dynamic) in [(vec![3, 2], false), (vec![4, 2], true), (vec![3], false), (vec![2, 2], false)] {
@@ -363,7 +385,7 @@ pub fn configs(args: &Args) -> Vec<Cfg> {
         }
         for bs in variants {
             for xlen in [Some(shape[0]), Some(shape[0] + 1), None] {
-                v.push(Cfg { strat: Strat::SplineIndividual(bs.clone()), shape: shape.clone(), dynamic, xlen, ylen: None, timeout_ms });
+                v.push(Cfg { strat: Strat::SplineIndividual(bs.clone()), shape: shape.clone(), dynamic, xlen, ylen: None, window: None, timeout_ms });
             }
         }
     }
@@ -387,17 +409,31 @@ pub fn configs(args: &Args) -> Vec<Cfg> {
                     };
                     for xlen in opts(nx) {
                         for ylen in opts(ny) {
-                            v.push(Cfg { strat: Strat::Bilinear, shape: shape.clone(), dynamic, xlen, ylen, timeout_ms });
+                            v.push(Cfg { strat: Strat::Bilinear, shape: shape.clone(), dynamic, xlen, ylen, window: None, timeout_ms });
                         }
                     }
                 }
             }
         }
     }
+    // ---- long axes (a block-wise / vectorised monotonicity scan only goes wrong beyond a block): a window of three
+    // unconstrained elements at every position of a concrete increasing axis
+    for n in if thorough { vec![9usize, 10, 17, 18, 33, 34, 65] } else { vec![9usize, 10, 17, 18, 33] } {
+        for pos in 0..n - 2 {
+            let strat = [Strat::Linear, Strat::SplineNak, Strat::Linear][pos % 3].clone();
+            v.push(Cfg { strat, shape: vec![n], dynamic: pos % 2 == 1, xlen: Some(n), ylen: None, window: Some((false, pos)), timeout_ms });
+        }
+    }
+    for n in [9usize, 17] {
+        for pos in 0..n - 2 {
+            v.push(Cfg { strat: Strat::Bilinear, shape: vec![n, 2], dynamic: false, xlen: Some(n), ylen: None, window: Some((false, pos)), timeout_ms });
+            v.push(Cfg { strat: Strat::Bilinear, shape: vec![2, n], dynamic: false, xlen: None, ylen: Some(n), window: Some((true, pos)), timeout_ms });
+        }
+    }
     // dynamic rank too small for 2-D
     for shape in [vec![], vec![3]] {
-        v.push(Cfg { strat: Strat::Bilinear, shape: shape.clone(), dynamic: true, xlen: None, ylen: None, timeout_ms });
-        v.push(Cfg { strat: Strat::Bilinear, shape, dynamic: true, xlen: Some(2), ylen: Some(2), timeout_ms });
+        v.push(Cfg { strat: Strat::Bilinear, shape: shape.clone(), dynamic: true, xlen: None, ylen: None, window: None, timeout_ms });
+        v.push(Cfg { strat: Strat::Bilinear, shape, dynamic: true, xlen: Some(2), ylen: Some(2), window: None, timeout_ms });
     }
     v
 }
